@@ -59,6 +59,16 @@ func (e *cliEnv) subst(arg string) string {
 	if strings.HasPrefix(arg, "{file:") && strings.HasSuffix(arg, "}") {
 		return e.path(arg[6 : len(arg)-1])
 	}
+	// {byte:XX} stands for one raw byte (arguments are byte strings, not necessarily UTF-8)
+	for {
+		i := strings.Index(arg, "{byte:")
+		if i < 0 || len(arg) < i+9 || arg[i+8] != '}' {
+			break
+		}
+		var b byte
+		fmt.Sscanf(arg[i+6:i+8], "%02x", &b)
+		arg = arg[:i] + string([]byte{b}) + arg[i+9:]
+	}
 	return arg
 }
 
